@@ -123,6 +123,12 @@ impl ChunkSerializer {
             iteration = iteration + 1;
         }
 
+        if slices.is_empty() {
+            // A message without any payload still has to be sent, as a single chunk that only
+            // consists of its header.
+            slices.push(&message.data[0..0]);
+        }
+
         for (idx, slice) in slices.into_iter().enumerate() {
             self.add_chunk(
                 &mut bytes,
